@@ -130,7 +130,7 @@ def side_check(ex, prev, aev, nxt):
                         {"all": [f"{s}: {t}" for s, t in probs[:8]]})
 
 
-HOSTS = ["c07", "c05", "c06", "c10"]
+HOSTS = ["c07", "c05", "c06", "c10", "c09lib"]
 
 
 def run(rep, tier):
@@ -139,7 +139,7 @@ def run(rep, tier):
 
     v2x.SIDE_CHECKS["C09"] = side_check
     rep.assumptions += [
-        "predicates evaluated after every run_to_completion of every E1 exploration (host properties' program sets + mixed grammar + library flows)",
+        "predicates evaluated after every run_to_completion of every E1 exploration: program sets of C07, C05, C06, C10 + shipped library flows (core, timing, guardrails) driven with utterance / bot-action / timer events (vf/props/c09lib.py)",
         "PYTHONHASHSEED=0; uids from a counter; random.choice enumerated",
     ]
     hosts = []
